@@ -282,7 +282,76 @@ func metaOf(ts []lsm.VerifTable) []compact.TableMeta {
 }
 
 // compactOnce runs one compaction attempt and derives the executed plan from the layout difference.
+func i64s(vs []int64) string {
+	u := make([]uint64, len(vs))
+	for i, v := range vs {
+		if v < 0 {
+			panic("negative size")
+		}
+		u[i] = uint64(v)
+	}
+	return corr.ListN(u)
+}
+
+func targetsTerm(sizes []int64, opt compact.TargetOptions, t compact.Targets) (string, string) {
+	opts := []int64{opt.BaseLevelSize, int64(opt.LevelSizeMultiplier), opt.BaseTableSize, int64(opt.TableSizeMultiplier), opt.MemTableSize}
+	term := fmt.Sprintf("XTargets %s %s %d %s %s", i64s(sizes), i64s(opts), t.BaseLevel, i64s(t.TargetSz), i64s(t.FileSz))
+	return term, fmt.Sprintf("targets sizes=%v opts=%v -> base=%d target=%v file=%v", sizes, opts, t.BaseLevel, t.TargetSz, t.FileSz)
+}
+
+// emitTargets records what the planner derives from the current level sizes.
+func (r *lsmRun) emitTargets() {
+	sizes, opt, t := r.db.VerifLSM().VerifLevelTargets()
+	r.emit(targetsTerm(sizes, opt, t))
+}
+
+// runTargets: compact.BuildTargets on generated level sizes and options (pure function).
+func runTargets(c *corr.Ctx, n int) {
+	var ops, desc []string
+	pick := func(vs ...int64) int64 { return vs[c.Rng.Intn(len(vs))] }
+	for i := 0; i < n; i++ {
+		opt := compact.TargetOptions{
+			BaseLevelSize:       pick(0, 1, 10, 32, 100, 1<<20, 32<<20),
+			LevelSizeMultiplier: int(pick(0, 1, 2, 8, 10)),
+			BaseTableSize:       pick(0, 1, 8, 8<<20),
+			TableSizeMultiplier: int(pick(0, 1, 2, 3)),
+			MemTableSize:        pick(1, 64, 1<<20),
+		}
+		nl := 7
+		if c.Rng.Intn(4) == 0 {
+			nl = c.Rng.Intn(10)
+		}
+		sizes := make([]int64, nl)
+		for l := range sizes {
+			switch c.Rng.Intn(5) {
+			case 0, 1: // empty level
+			case 2:
+				sizes[l] = 1 + c.Rng.Int63n(16)
+			case 3:
+				sizes[l] = opt.BaseLevelSize * pick(1, 2, 7, 8, 9, 64, 100)
+			default:
+				sizes[l] = opt.BaseLevelSize + c.Rng.Int63n(3) - 1
+				if sizes[l] < 0 {
+					sizes[l] = 0
+				}
+			}
+		}
+		t := compact.BuildTargets(sizes, opt)
+		term, d := targetsTerm(sizes, opt, t)
+		ops, desc = append(ops, term), append(desc, d)
+		c.Count(fmt.Sprintf("targets_base_%d", t.BaseLevel))
+		if len(ops) == 300 || i == n-1 {
+			c.Emit(corr.Case{Coq: fmt.Sprintf("Cs 1 0 %s", corr.List(ops)), Nontrivial: true,
+				Desc: map[string]any{"script": "build_targets", "ops": desc}})
+			ops, desc = nil, nil
+		}
+	}
+}
+
 func (r *lsmRun) compactOnce(level, mode, base int) bool {
+	if level == 0 {
+		r.emitTargets()
+	}
 	before := r.layout()
 	err := r.db.VerifLSM().VerifCompact(level, mode, base)
 	if err != nil {
@@ -744,6 +813,9 @@ func runLsm(c *corr.Ctx) error {
 	if only := os.Getenv("VERIF_SCRIPT"); only != "" {
 		runScriptLsm(c, only, strings.HasSuffix(only, "_plain"))
 		return nil
+	}
+	if c.Prop != "C12" {
+		runTargets(c, c.Scale(300, 20000))
 	}
 	if plain {
 		for _, name := range []string{"l0_tie", "ingest_tie", "ingest_tie2", "drain_overlap_plain", "ingest_over_main_plain", "l0_prefix_plain", "base_level_drop_plain"} {
